@@ -26,12 +26,12 @@ func init() { register("W4C19", runW4C19) }
 // user is in the middle of a multi-write save; cancellation at a PRNG-chosen moment.
 
 type w4cOp struct {
-	Dir    int    `json:"dir"`
-	Name   string `json:"name"`
-	Kind   string `json:"kind"`   // write (in place, truncating) | append | create | rename | remove | nested
-	Chunks int    `json:"chunks"` // number of write() calls
-	GapUs  int    `json:"gap_us"` // pause before the operation
-	ChunkGapUs int `json:"chunk_gap_us"`
+	Dir        int    `json:"dir"`
+	Name       string `json:"name"`
+	Kind       string `json:"kind"`   // write (in place, truncating) | append | create | rename | remove | nested
+	Chunks     int    `json:"chunks"` // number of write() calls
+	GapUs      int    `json:"gap_us"` // pause before the operation
+	ChunkGapUs int    `json:"chunk_gap_us"`
 }
 
 type w4cOps struct {
@@ -112,6 +112,7 @@ func runW4C19(t *testing.T, job *Job, seed uint64, rp *Replay) RunOut {
 	lastTomlWriteStart, tomlWriteCalls := -1, 0
 	var lastTomlName string
 	closedAt, cancelAt := time.Duration(-1), time.Duration(-1)
+	reloadStart := time.Duration(-1)
 	var vio *Vio
 	var loaderPanic string
 	res := simrt.Run(t, scfg, func() {
@@ -152,6 +153,9 @@ func runW4C19(t *testing.T, job *Job, seed uint64, rp *Replay) RunOut {
 				notes = append(notes, note{simrt.Steps(), simrt.Now()})
 				mu.Unlock()
 				if ops.Reload {
+					mu.Lock()
+					reloadStart = simrt.Now()
+					mu.Unlock()
 					func() {
 						defer func() {
 							if p := recover(); p != nil {
@@ -163,6 +167,9 @@ func runW4C19(t *testing.T, job *Job, seed uint64, rp *Replay) RunOut {
 						var wg sync.WaitGroup
 						config.LoadDeviceConfigs(context.Background(), &wg)
 					}()
+					mu.Lock()
+					reloadStart = -1
+					mu.Unlock()
 				}
 				if ops.ConsumerUs > 0 {
 					simrt.Sleep(time.Duration(ops.ConsumerUs) * time.Microsecond)
@@ -281,10 +288,32 @@ func runW4C19(t *testing.T, job *Job, seed uint64, rp *Replay) RunOut {
 			}
 			last = snap
 		}
+		// a reload still in progress gets 15 more simulated seconds
+		for k := 0; k < 150; k++ {
+			mu.Lock()
+			rs0 := reloadStart
+			mu.Unlock()
+			if rs0 < 0 {
+				break
+			}
+			simrt.Sleep(100 * time.Millisecond)
+		}
+		mu.Lock()
+		rs := reloadStart
+		mu.Unlock()
+		if rs >= 0 && simrt.Now()-rs > 10*time.Second {
+			// a reload that has been running for more than 10 simulated seconds: the loader hangs on what the
+			// user left on disk at that moment
+			bb, _ := json.Marshal(ops)
+			HardFail(&Vio{Props: []string{"C09"}, Clause: "device_config_hang_during_save", Detail: fmt.Sprintf("LoadDeviceConfigs, started at t=%v while the user was saving, has not returned at t=%v", rs, simrt.Now())},
+				&Replay{World: "W4C19", Prop: job.Prop, Seed: seed, Tier: job.Tier, Ops: bb, Override: true, Config: string(bb)})
+		}
 		simrt.WaitIdle()
 		mk := func(clause, detail string) {
 			if vio == nil {
 				vio = &Vio{Props: []string{"C19"}, Clause: clause, Detail: detail}
+				bb, _ := json.Marshal(ops)
+				notePending(vio, &Replay{World: "W4C19", Prop: job.Prop, Seed: seed, Ops: bb, Override: true})
 			}
 		}
 		// the number of write()/truncate operations on *.toml files directly inside the four directories,
